@@ -3839,7 +3839,8 @@ class Union(Construct):
                 if {'True' if sc.flagbuildnone else f'{repr(sc.name)} in objdict'}:
                     {f'obj = objdict.get({repr(sc.name)}, None)' if sc.flagbuildnone else f'obj = objdict[{repr(sc.name)}]'}
                     {f'this[{repr(sc.name)}] = obj' if sc.name else ''}
-                    {f'buildret = this[{repr(sc.name)}] = ' if sc.name else ''}{sc._compilebuild(code)}
+                    {f'buildret = '}{sc._compilebuild(code)}
+                    {f'this[{repr(sc.name)}] = buildret' if sc.name else ''}
                     {f'return Container({{ {repr(sc.name)}:buildret }})'}
             """
         block += f"""
